@@ -71,11 +71,14 @@ def gen_cases(rng, tier, driver, corr, stats):
             for klen in (0, 1, 31, 32, 33, 63, 64, 65, 100, 1000):
                 for mlen in (0, 1, 31, 32, 33, 64, 100, rng.choice(gen.boundary_lengths(8, maxlen))):
                     k, m = rnd_bytes(rng, klen), rnd_bytes(rng, mlen)
+                    ak = " AK" if rng.random() < 0.3 else ""          # digest written over the key buffer (out == key)
+                    if ak:
+                        stats["ops"]["HMAC-out-aliases-key"] += 1
                     if rng.random() < 0.5:
-                        corr.one("HMO %s %s %s" % (v, hx(k), hx(m)))
+                        corr.one("HMO %s %s %s%s" % (v, hx(k), hx(m), ak))
                     else:
                         parts = gen.split_data(m, gen.partition(rng, mlen, 8))
-                        corr.one("HM %s %s %s" % (v, hx(k), ",".join(hx(p) for p in parts) or "-"))
+                        corr.one("HM %s %s %s%s" % (v, hx(k), ",".join(hx(p) for p in parts) or "-", ak))
                     stats["ops"]["HMAC"] += 1; stats["len"].append(mlen); stats["keylen"].append(klen)
         for v in ("kmac", "kmaca"):
             for outl in (0, 1, 31, 32, 33, 64, 200):
